@@ -242,7 +242,8 @@ PROPS["C15"] = dict(
     proof_files=["Proofs/Reloader.v", "Tie/Answers.v", "Props/C15.v"],
     proof_targets=["Props/C15.vo"],
     props_module="Props.C15",
-    theorems=["C15_code_leaves_the_loop_when_the_cache_is_gone", "C15_idle_blocks", "C15_no_spin",
+    theorems=["C15_code_leaves_the_loop_when_the_cache_is_gone", "C15_code_leaves_the_loop_when_events_are_over",
+              "C15_idle_blocks", "C15_no_spin",
               "C15_exits_after_drop", "C15_no_accumulation", "C15_old_loop_spins"],
     engines=[("loopdiff", [])],
     rule="loopdiff: idle live caches (in-memory and FileSystem sources) must show sleeping reloader "
@@ -421,7 +422,7 @@ sys_prop(
     ["Props/C06.vo"],
     ["C06_loads_leave_reloader_state", "C06_reload_id_moves_only_in_a_pass", "C06_reload_bumps_id_by_one",
      "C06_each_affected_asset_once", "C06_watcher_reports_growth_once",
-     "C06_value_read_after_a_reported_reload_is_as_new", "C06_code_forgets_dropped_dependencies"],
+     "C06_value_read_after_a_reported_reload_is_as_new", "C06_code_forgets_dropped_dependencies", "C06_code_visits_each_asset_once"],
     ["Entry", "CallGraph", "Deps", "Private"], [], mode="hot", extra_engines=[("rwdiff", [])])
 
 sys_prop(
@@ -607,6 +608,7 @@ PROPS["C04"] = dict(
     props_module="Props.C04",
     theorems=["C04_listing_is_exactly_the_direct_children", "C04_listed_entries_are_readable_under_their_id",
               "C04_read_dir_answers_exactly_for_directories", "C04_code_builds_the_modelled_index",
+              "C04_code_reads_whole_members",
               "C04_archive_index_answers_like_the_tree", "C04_member_order_is_irrelevant",
               "C04_implied_directory_members_are_redundant", "C04_archive_nonvacuous"],
     engines=[("srcdiff", [])],
